@@ -267,6 +267,11 @@ def match_packages(
         allarches_kw: list[str] = []
         if allarches and stable and filter_arch:
             allarches_kw = sort_keywords(suggested_keywords(repo, pkg, stable=True))
+            # taken from ebuild KEYWORDS, so checked like any other expansion
+            if unknown := frozenset(allarches_kw) - valid_arches:
+                raise KeywordNoMatch(
+                    f"incorrect keywords: {' '.join(sorted(unknown))}"
+                )
 
         if only_new:
             keywords = [
